@@ -661,7 +661,10 @@ class Tuner:
 
             if status == Status.failed:
                 logger.info(f"Trial trial_id {trial_id} failed.")
-                self.scheduler.on_trial_error(trial)
+                if trial_id not in done_trials:
+                    # Otherwise, the scheduler has already been told that the
+                    # trial ended (it decided to stop or pause it)
+                    self.scheduler.on_trial_error(trial)
                 done_trials[trial_id] = (trial, status)
 
             # For the case when the trial is stopped independently of the scheduler, we choose to use
@@ -673,7 +676,8 @@ class Tuner:
                 logger.info(
                     f"Trial trial_id {trial_id} was stopped independently of the scheduler."
                 )
-                self.scheduler.on_trial_error(trial)
+                if trial_id not in done_trials:
+                    self.scheduler.on_trial_error(trial)
                 done_trials[trial_id] = (trial, status)
 
         return done_trials
